@@ -245,68 +245,70 @@ def pick_node(ctx, p, label, dead_ok=True):
     return p.ids[i]
 
 
-def perform(ctx, p, cfg):
-    """Run the configured action with symbolic arguments.  Returns (action|None, exc|None, named)"""
+def perform(ctx, p, cfg, sfx=""):
+    """Run the configured action with symbolic arguments.  Returns (action|None, exc|None, named)
+    sfx: suffix of the argument variables / input names of a SECOND step (follow-up runs)"""
     kind = cfg["action"]
+    env_update = ctx.env.update if not sfx else (lambda **kw: None)
     tr = p.tr
     named = dict(nodes=[], tid=None, edge=None, new=None)
     args = {}
     try:
         if kind in ("UserAddEdge", "UserDeleteEdge", "UserSwapPredecessors", "AddEdge", "DeleteEdge"):
-            u = pick_node(ctx, p, "u")
-            v = pick_node(ctx, p, "v")
+            u = pick_node(ctx, p, "u" + sfx)
+            v = pick_node(ctx, p, "v" + sfx)
             named["nodes"] = [u, v]
             args = dict(u=u, v=v)
             if kind == "UserAddEdge":
-                force = z3.Bool("force")
+                force = z3.Bool("force" + sfx)
                 named["edge"] = (u, v)
                 fv = bool(SBool(force))
                 args["force"] = fv
-                ctx.input("args", args)
-                ctx.env.update(u=u, v=v, force=fv, su=u - 1, sv=v - 1)
+                ctx.input("args" + sfx, args)
+                env_update(u=u, v=v, force=fv, su=u - 1, sv=v - 1)
                 act = UserAddEdge(tr, (u, v), force=fv)
             elif kind == "UserDeleteEdge":
                 named["edge"] = (u, v)
-                ctx.input("args", args)
-                ctx.env.update(u=u, v=v, su=u - 1, sv=v - 1)
+                ctx.input("args" + sfx, args)
+                env_update(u=u, v=v, su=u - 1, sv=v - 1)
                 act = UserDeleteEdge(tr, (u, v))
             elif kind == "UserSwapPredecessors":
-                ctx.input("args", args)
-                ctx.env.update(u=u, v=v, su=u - 1, sv=v - 1)
+                ctx.input("args" + sfx, args)
+                env_update(u=u, v=v, su=u - 1, sv=v - 1)
                 act = UserSwapPredecessors(tr, (u, v))
             elif kind == "AddEdge":
-                ctx.input("args", args)
+                ctx.input("args" + sfx, args)
                 # documented precondition of the primitive ("adding a NEW edge"): the edge is not there yet
                 if u - 1 < p.N and v - 1 < p.N:
                     ctx.assume(Not(p.sh0.A[u - 1][v - 1]))
                 act = AddEdge(tr, (u, v))
             else:
-                ctx.input("args", args)
+                ctx.input("args" + sfx, args)
                 act = DeleteEdge(tr, (u, v))
         elif kind == "UserDeleteNode":
-            n = pick_node(ctx, p, "n")
+            n = pick_node(ctx, p, "n" + sfx)
             named["nodes"] = [n]
             args = dict(n=n)
-            ctx.input("args", args)
-            ctx.env.update(n=n, sn=n - 1)
+            ctx.input("args" + sfx, args)
+            env_update(n=n, sn=n - 1)
             act = UserDeleteNode(tr, n)
         elif kind == "DeleteNode":
-            n = pick_node(ctx, p, "n", dead_ok=False)
+            n = pick_node(ctx, p, "n" + sfx, dead_ok=False)
             s = n - 1
             # documented precondition: no incident edges
             ctx.assume(And(p.sh0.al[s], p.sh0.indeg[s] == 0, p.sh0.outdeg[s] == 0))
             args = dict(n=n)
-            ctx.input("args", args)
+            ctx.input("args" + sfx, args)
             act = DeleteNode(tr, n)
         elif kind in ("UserAddNode", "AddNode"):
-            n = p.ids[p.N - 1 + ctx.choose(2, "newid")]  # the last ordinary slot or the spare one
-            nt, ntid, nlid, ncus = z3.Int("new_t"), z3.Int("new_tid"), z3.Int("new_lid"), z3.Int("new_cus")
+            n = p.ids[p.N - 1 + ctx.choose(2, "newid" + sfx)]  # the last ordinary slot or the spare one
+            nt, ntid, nlid, ncus = z3.Int("new_t" + sfx), z3.Int("new_tid" + sfx), z3.Int("new_lid" + sfx), z3.Int("new_cus" + sfx)
             names = ["full", "no_time", "no_track_id", "no_pos"]
             if p.multi_pos:
                 names.append("partial_pos")
             if p.with_lineage and kind == "AddNode":
                 names.append("with_lineage")
-            shape_name = names[ctx.choose(len(names), "attrs")]
+            shape_name = names[ctx.choose(len(names), "attrs" + sfx)]
             shape = 0 if (shape_name == "full" and p.with_lineage and kind == "AddNode") else 1
             attrs = {T: SInt(nt), TID: SInt(ntid), CUS: SInt(ncus)}
             if p.multi_pos:
@@ -327,44 +329,44 @@ def perform(ctx, p, cfg):
             named["tid"] = ntid
             named["new"] = n
             args = dict(n=n, t=nt, tid=ntid, lid=nlid, cus=ncus, shape=shape_name)
-            ctx.env.update(n=n, sn=n - 1, new_t=nt, new_tid=ntid, shape=shape_name)
+            env_update(n=n, sn=n - 1, new_t=nt, new_tid=ntid, shape=shape_name)
             if kind == "UserAddNode":
-                force = z3.Bool("force")
+                force = z3.Bool("force" + sfx)
                 fv = bool(SBool(force))
                 args["force"] = fv
-                ctx.env.update(force=fv)
-                ctx.input("args", args)
+                env_update(force=fv)
+                ctx.input("args" + sfx, args)
                 act = UserAddNode(tr, n, attrs, force=fv)
             else:
                 ctx.assume(Not(p.sh0.al[n - 1]))  # primitive adds a *new* node
                 if shape == 0 and p.with_lineage:
                     ctx.assume(False)  # primitive on a lineage-enabled solution: caller provides the lineage id
-                ctx.input("args", args)
+                ctx.input("args" + sfx, args)
                 act = AddNode(tr, n, attrs)
         elif kind in ("UserUpdateNodeAttrs", "UpdateNodeAttrs"):
-            n = pick_node(ctx, p, "n")
+            n = pick_node(ctx, p, "n" + sfx)
             keys = [CUS, T, TID, LID, POS, "unregistered"]
-            key = keys[ctx.choose(len(keys), "key")]
-            val, val2 = z3.Int("new_val"), z3.Int("new_val2")
+            key = keys[ctx.choose(len(keys), "key" + sfx)]
+            val, val2 = z3.Int("new_val" + sfx), z3.Int("new_val2" + sfx)
             # optionally a second attribute in the same call (dict order matters for half-applied updates)
-            k2 = ctx.choose(len(keys) + 1, "key2")
+            k2 = ctx.choose(len(keys) + 1, "key2" + sfx)
             key2 = None if k2 == len(keys) or keys[k2] == key else keys[k2]
             attrs = {key: SInt(val)}
             if key2 is not None:
                 attrs[key2] = SInt(val2)
             named["nodes"] = [n]
             args = dict(n=n, key=key, val=val, key2=key2, val2=val2)
-            ctx.input("args", args)
-            ctx.env.update(n=n, key=key)
+            ctx.input("args" + sfx, args)
+            env_update(n=n, key=key)
             if kind == "UserUpdateNodeAttrs":
                 act = UserUpdateNodeAttrs(tr, n, attrs)
             else:
                 act = UpdateNodeAttrs(tr, n, attrs)
         elif kind == "UpdateTrackIDs":
-            n = pick_node(ctx, p, "n", dead_ok=False)
+            n = pick_node(ctx, p, "n" + sfx, dead_ok=False)
             s = n - 1
-            ntid, nlid = z3.Int("new_tid"), z3.Int("new_lid")
-            use_l = ctx.choose(2, "with_lid") == 1
+            ntid, nlid = z3.Int("new_tid" + sfx), z3.Int("new_lid" + sfx)
+            use_l = ctx.choose(2, "with_lid" + sfx) == 1
             sh = p.sh0
             # documented precondition: the new id is not found downstream; the callers in
             # funtracks start at the head of a segment or right below a removed edge; we take
@@ -373,7 +375,7 @@ def perform(ctx, p, cfg):
             comp = sh.comp()
             ctx.assume(And([Implies(And(sh.al[j], comp[s][j]), p.tid0[j] != ntid) for j in range(p.N)]))
             args = dict(n=n, tid=ntid, lid=nlid if use_l else None)
-            ctx.input("args", args)
+            ctx.input("args" + sfx, args)
             act = UpdateTrackIDs(tr, n, SInt(ntid), SInt(nlid) if use_l else None)
         else:
             raise AssertionError(kind)
@@ -504,6 +506,9 @@ def harness(ctx, cfg):
             ctx.oblige("C20.payload", payload_ok, "C20")
         ctx.witness("state_changed", Not(And(same_graph(S0, S1), same_attrs(S0, S1))))
 
+    if is_user and props and cfg.get("followup", True) and not disabled:
+        if followup(ctx, p, cfg, S1, k, "edit"):
+            return
     if kind == "UpdateTrackIDs" and (want("C04") or want("C05")):
         # contract of the primitive that every lineage/track update of the user actions rests on:
         # the new lineage id reaches EVERY descendant of the start node (through divisions), the new
@@ -528,7 +533,9 @@ def harness(ctx, cfg):
             ctx.oblige("C05.lineage_update_reaches_all_descendants", And(c5), "C05")
         if want("C04"):
             ctx.oblige("C04.track_update_covers_exactly_the_segment", And(c4), "C04")
-    if want("C01") or want("C20") or want("C02") or want("C06"):
+    fu_undo = bool(is_user and props and cfg.get("followup", True) and not disabled
+                   and any(q in FOLLOW_PROPS for q in props))
+    if want("C01") or want("C20") or want("C02") or want("C06") or fu_undo:
         # invert, then invert the inverse (through the history for user actions)
         del p.emitted[:]
         try:
@@ -537,6 +544,10 @@ def harness(ctx, cfg):
                 S2 = Snap(p, k)
                 e2 = list(p.emitted)
                 del p.emitted[:]
+                if fu_undo and r1 is True and followup(ctx, p, cfg, S2, k, "undo"):
+                    return
+                if not (want("C01") or want("C20") or want("C02") or want("C06")):
+                    return
                 r2 = p.tr.redo()
                 S3 = Snap(p, k)
                 e3 = list(p.emitted)
@@ -606,6 +617,79 @@ def harness(ctx, cfg):
                        and len(S3.undo) == len(S1.undo) and S3.redo == [], "C02")
         if is_user and want("C20"):
             ctx.oblige("C20.undo_one_refresh", len(e2) == 1 and len(e3) == 1, "C20")
+
+
+# ------------------------------------------------------------------ induction-hypothesis audit (two-step runs)
+FOLLOW_PROPS = ("C01", "C03", "C04", "C05", "C06")
+
+
+def inv_clauses(S, k, L):
+    """the clauses of Inv on a snapshot, by owning property"""
+    d = {"C03": And(list(c03(S).values())), "C04": c04_partition(S),
+         "C06": And(c06_lookups(S, k, L), S.wf, c06_fresh(S, L))}
+    if L:
+        d["C05"] = c05_partition(S)
+    return d
+
+
+def followup(ctx, p, cfg, S, k, after):
+    """The one-step argument for property P assumes the WHOLE invariant in the pre-state, so it is only an
+    induction if every accepted step re-establishes the whole invariant.  P's own check therefore asks, on every
+    accepted path, whether a clause of Inv owned by ANOTHER property can be false in the post-state.  On a tree
+    where the other properties hold this is one unsat query.  If it is satisfiable, the induction hypothesis of P
+    is not available for the next step: the path is continued from those broken states with a SECOND symbolic
+    user action, and P is asserted on the state after it (a counterexample is a two-edit history, replayed as
+    such).  Returns True if the path was continued (the caller stops)."""
+    props = [q for q in (cfg.get("props") or []) if q in FOLLOW_PROPS]
+    if not props:
+        return False
+    L = p.with_lineage
+    cl = inv_clauses(S, k, L)
+    others = [f for q, f in cl.items() if q not in props]
+    if not others:
+        return False
+    broken = Not(And(others))
+    if not ctx._check(zb(unwrap(broken))):
+        return False
+    if ctx.choose(2, "followup_" + after) == 0:
+        return False
+    ctx.assume(broken)
+    ctx.tag("followup:inv_broken_after_" + after)
+    ctx.input("followup_after", after)
+    users = USER_ACTIONS[:5]
+    kind2 = users[ctx.choose(len(users), "action2")]
+    ctx.input("action2", kind2)
+    cfg2 = dict(cfg)
+    cfg2["action"] = kind2
+    try:
+        act2, exc2, named2, args2 = perform(ctx, p, cfg2, sfx="_2")
+    except Unsupported:
+        raise
+    if exc2 is not None:
+        ctx.tag("followup:second_refused")
+        return True
+    ctx.tag("followup:second_accepted")
+    S2 = Snap(p, k)
+    cl2 = inv_clauses(S2, k, L)
+    for q in props:
+        if q in cl2:
+            ctx.oblige(f"{q}.holds_after_two_edits", cl2[q], q)
+    if "C01" in props:
+        # the second edit, made from a state outside Inv, must still be exactly invertible
+        try:
+            p.tr.undo()
+            S3 = Snap(p, k)
+            p.tr.redo()
+            S4 = Snap(p, k)
+        except Unsupported:
+            raise
+        except Exception as e:
+            ctx.tag(f"followup:inverse_raised:{type(e).__name__}")
+            ctx.oblige("C01.second_edit_inverse_applies", False, "C01")
+            return True
+        ctx.oblige("C01.second_edit_undo_exact", And(same_graph(S, S3), same_attrs(S, S3)), "C01")
+        ctx.oblige("C01.second_edit_redo_exact", And(same_graph(S2, S4), same_attrs(S2, S4)), "C01")
+    return True
 
 
 # ------------------------------------------------------------------ query semantics (C06)
